@@ -20,6 +20,11 @@ pub enum Post {
     Truncate,
     Remove,
     Replace,
+    /// same length, other bytes, and the modification time put back (`cp -p`, `rsync -t`)
+    ModifyKeepMtime,
+    /// the cache's temp area moves to another filesystem, then the same bytes are stored
+    /// through an ordinary write: whatever publishes that content does not touch the target
+    WriteSameTmpElsewhere,
 }
 
 #[derive(Clone, Debug, Serialize, Deserialize)]
@@ -76,7 +81,7 @@ impl Engine for C19 {
                         for fl in [Fl::Sync, Fl::Async] {
                             n += 1;
                             let pre_reads = if oneshot { vec![] } else { [vec![], vec![1], vec![7], vec![9, 20000], vec![len + 10], vec![usize::MAX], vec![3, usize::MAX], vec![usize::MAX - 1]][n % 8].clone() };
-                            let post = [Post::None, Post::Modify, Post::Truncate, Post::Remove, Post::Replace][(n / 2) % 5];
+                            let post = [Post::None, Post::Modify, Post::Truncate, Post::Remove, Post::Replace, Post::ModifyKeepMtime, Post::WriteSameTmpElsewhere][(n / 2) % 7];
                             let mut link = mk_link(if keyed { Some(0) } else { None }, relative, oneshot, ALGOS[n % 5], pre_reads, if n % 3 == 0 { Declare::Exact } else { Declare::None }, if n % 4 == 0 { IntegDecl::Correct } else { IntegDecl::None });
                             // the relative target spelled through a symlinked directory and `..`
                             link.dotdot_via_symlink = relative && (n / 4) % 2 == 1;
@@ -110,7 +115,7 @@ impl Engine for C19 {
             basic::link_spec(1, 1, true),
             gen::fl(),
             (0u8..4, prop::bool::weighted(0.35), prop::bool::weighted(0.2)),
-            prop_oneof![3 => Just(Post::None), 1 => Just(Post::Modify), 1 => Just(Post::Truncate), 1 => Just(Post::Remove), 1 => Just(Post::Replace)],
+            prop_oneof![3 => Just(Post::None), 1 => Just(Post::Modify), 1 => Just(Post::Truncate), 1 => Just(Post::Remove), 1 => Just(Post::Replace), 1 => Just(Post::ModifyKeepMtime), 1 => Just(Post::WriteSameTmpElsewhere)],
             vec(prop_oneof![Just(1usize), 1usize..9, 9usize..20000], 0..3),
         )
             .prop_map(|(blob, mut link, fl, (cwd_depth, relative, preexisting), post, pre)| {
@@ -266,6 +271,27 @@ impl Engine for C19 {
                     let tmp = ctx.scratch.join("replacement");
                     std::fs::write(&tmp, blob::Blob::new(data.len() + 1, 4242).bytes()).map_err(|e| format!("INFRA: {e}"))?;
                     std::fs::rename(&tmp, &target).map_err(|e| format!("INFRA: {e}"))?;
+                }
+                Post::ModifyKeepMtime => {
+                    let mut b = data.to_vec();
+                    if b.is_empty() {
+                        b.push(1);
+                    } else {
+                        let i = b.len() / 3;
+                        b[i] ^= 0x21;
+                    }
+                    let t = std::fs::metadata(&target).and_then(|m| m.modified()).map_err(|e| format!("INFRA: {e}"))?;
+                    std::fs::write(&target, &b).map_err(|e| format!("INFRA: {e}"))?;
+                    let f = std::fs::OpenOptions::new().write(true).open(&target).map_err(|e| format!("INFRA: {e}"))?;
+                    f.set_modified(t).map_err(|e| format!("INFRA: {e}"))?;
+                }
+                Post::WriteSameTmpElsewhere => {
+                    for s in [Step { op: Op::TmpElsewhere, fl: Fl::Sync }, Step { op: Op::Write({ let mut w = WriteSpec::simple(Some(1), 0); w.entry = WEntry::OneShotAlgo; w.algo = algo; w }), fl: c.fl }] {
+                        let r = run_step(&ctx, &s);
+                        st.eval(1);
+                        model.step(&ctx, &s, &r.out, r.t0, r.t1).map_err(|e| format!("{what}: ordinary write of the linked bytes with the temp area elsewhere: {e}"))?;
+                    }
+                    check_target("after an ordinary write of the same bytes (temp area on another filesystem)")?;
                 }
                 Post::None => {}
             }
